@@ -6,9 +6,10 @@
   Part 1: obligations — the facts regenerated from /repo equal the expected tables.
   Part 2: the library tables: the safe library has no file-reading, network or command function.
   Part 3: confinement of the transliterated evaluator (Impl) for every source, configuration and fuel.
-  Part 4: every repair is necessary: with any one of them switched off the model escapes.
-  One route is left open in the tree (KF-dynvar-leak): `confinement` is proved for the specification
-  semantics, `confinement_partial` for the tree, `confinement_full_false` shows the difference is real.
+  Part 4: every repair is necessary: with any one of them switched off the model escapes (including the
+          parse-time scope seeded empty, reached through a name the `bind` hook pushed).
+  The last route (the caller's dynamic variables `@{x}`, KF-dynvar-leak) is closed by a barrier in withSandbox:
+  `confinement` holds for every calling context; `unrepaired_dynvar_*` show what happened without it.
 -/
 import Arrai.C18.Lemmas
 import Arrai.C18.Expected
@@ -67,56 +68,32 @@ theorem unrepaired_safe_has_exec : Cap.exec ∈ (safeLibOf safeGoUnrepaired).rea
 
 /-! ### Part 3 — confinement -/
 
-/-- **Confinement (specification semantics).** With the sandbox boundary also closed to dynamic variables
-(`specWorld`): for every file system, configuration `ec`, capability set `C` containing what the
+/-- **Confinement.** For every file system, configuration `ec`, capability set `C` containing what the
 configuration hands over (its stdlib — the safe library when absent — and its scope), every source `a`,
-every fuel and every calling context, the value returned by sandboxed evaluation reaches only
-capabilities in `C`, and every effect performed on the way exercises a capability in `C`. -/
+every fuel and every calling context (whatever dynamic variables the caller bound): the value returned by
+sandboxed evaluation reaches only capabilities in `C`, and every effect performed on the way exercises a
+capability in `C`. -/
 theorem confinement (fs : List (String × File)) (ec : EvalConfig) (C : List Cap)
-    (hC : cfgCaps (specWorld fs) ec ⊆ C) (a : Ast) (ha : a.isSource = true) (fuel : Nat) (c : Ctx) :
-    Spec.Confined C (sandboxEval (specWorld fs) fuel c ec a) :=
-  confinement_general (specWorld fs) ⟨rfl, rfl, rfl, rfl⟩ safe_within_safeCaps ec C hC a ha fuel c (Or.inl rfl)
-
-/-- what full strength would mean for the tree as it is (`world`: the five repairs committed, the Go context
-passed into the sandbox unchanged) -/
-def confinement_full : Prop :=
-  ∀ (fs : List (String × File)) (ec : EvalConfig) (C : List Cap), cfgCaps (world fs) ec ⊆ C →
-    ∀ (a : Ast), a.isSource = true → ∀ (fuel : Nat) (c : Ctx), Spec.Confined C (sandboxEval (world fs) fuel c ec a)
-
-/-- **Confinement of the tree (partial).** The same statement for the transliteration of the tree, for every
-calling context whose dynamic variables `@{x}` reach only `C` (in particular: none bound) — the one route
-left open is `KF-dynvar-leak`. -/
-theorem confinement_partial (fs : List (String × File)) (ec : EvalConfig) (C : List Cap)
-    (hC : cfgCaps (world fs) ec ⊆ C) (a : Ast) (ha : a.isSource = true) (fuel : Nat) (c : Ctx)
-    (hdyn : c.dyn.reach ⊆ C) : Spec.Confined C (sandboxEval (world fs) fuel c ec a) :=
-  confinement_general (world fs) ⟨rfl, rfl, rfl, rfl⟩ safe_within_safeCaps ec C hC a ha fuel c (Or.inr hdyn)
+    (hC : cfgCaps (world fs) ec ⊆ C) (a : Ast) (ha : a.isSource = true) (fuel : Nat) (c : Ctx) :
+    Spec.Confined C (sandboxEval (world fs) fuel c ec a) :=
+  confinement_general (world fs) ⟨rfl, rfl, rfl, rfl⟩ safe_within_safeCaps ec C hC a ha fuel c (Or.inl rfl)
 
 /-- the context of `(\@{x} //eval.eval("…"))(//os.file)`: the caller bound `@{x}` to the file function -/
 def leakCtx : Ctx := { ctx0 with dyn := .cons "@{x}" (.nat ["file"] .readFile .nil) .nil }
 
-/-- full strength is false of the tree: `(\@{x} //eval.eval("@{x}"))(//os.file)` hands the sandboxed source
-a file-reading function that is neither in its scope nor in its library -/
-theorem confinement_full_false : ¬ confinement_full := by
-  intro h
-  have h1 := (h [] ⟨none, .nil⟩ safeLib.reach (by simp [cfgCaps, world, Val.reach]) (.var "@{x}") rfl 8 leakCtx).1
-    (.nat ["file"] .readFile .nil) rfl
-  exact safe_is_safe .readFile (h1 (by simp [Val.reach, capClosure])) (by decide)
-
-/-- the hypotheses of `confinement_partial` are satisfiable by non-trivial values: a configuration handing
-over //os.file, the escape attempt of the original probe as source, a context that binds a dynamic variable -/
+/-- the hypotheses of `confinement` are satisfiable by non-trivial values: a configuration handing over
+//os.file, the escape attempt of the original probe as source (and the context may bind dynamic variables) -/
 example : cfgCaps (world []) ⟨some (.cons "os" (.cons "file" (.nat ["file"] .readFile .nil) .nil) .nil), .nil⟩
       ⊆ [.readFile] ∧
-    Ast.isSource (.app (.dot (.pkg "eval") "value") (.quote (.dot (.pkg "os") "file"))) = true ∧
-    leakCtx.dyn.reach ⊆ [.readFile] := by decide
+    Ast.isSource (.app (.dot (.pkg "eval") "value") (.quote (.dot (.pkg "os") "file"))) = true := by decide
 
 /-- //eval.eval (empty configuration): nothing dangerous is reachable from the result and no file is
 read, no request sent, no command run — whatever the source does -/
 theorem default_sandbox_is_safe (fs : List (String × File)) (a : Ast) (ha : a.isSource = true)
-    (fuel : Nat) (c : Ctx) (hdyn : c.dyn.reach ⊆ safeLib.reach) :
+    (fuel : Nat) (c : Ctx) :
     (∀ v, (sandboxEval (world fs) fuel c ⟨none, .nil⟩ a).1 = some v → ∀ d ∈ dangerous, d ∉ v.reach) ∧
     (∀ cap arg, Eff.did cap arg ∈ (sandboxEval (world fs) fuel c ⟨none, .nil⟩ a).2 → cap ∉ dangerous) := by
-  have h := confinement_partial fs ⟨none, .nil⟩ safeLib.reach (by simp [cfgCaps, world, Val.reach]) a ha fuel c
-    hdyn
+  have h := confinement fs ⟨none, .nil⟩ safeLib.reach (by simp [cfgCaps, world, Val.reach]) a ha fuel c
   constructor
   · intro v hv d hd hin
     exact safe_is_safe d (h.1 v hv hin) hd
@@ -126,11 +103,10 @@ theorem default_sandbox_is_safe (fs : List (String × File)) (a : Ast) (ha : a.i
 /-- a configuration that hands over nothing dangerous gets nothing dangerous back -/
 theorem harmless_config_stays_harmless (fs : List (String × File)) (ec : EvalConfig)
     (hcfg : ∀ d ∈ dangerous, d ∉ cfgCaps (world fs) ec) (a : Ast) (ha : a.isSource = true)
-    (fuel : Nat) (c : Ctx) (hdyn : c.dyn = .nil) :
+    (fuel : Nat) (c : Ctx) :
     ∀ v, (sandboxEval (world fs) fuel c ec a).1 = some v → ∀ d ∈ dangerous, d ∉ v.reach := by
   intro v hv d hd hin
-  exact hcfg d hd ((confinement_partial fs ec _ (fun _ h => h) a ha fuel c
-    (by simp [hdyn, Val.reach])).1 v hv hin)
+  exact hcfg d hd ((confinement fs ec _ (fun _ h => h) a ha fuel c).1 v hv hin)
 
 /-- **Unbound references fail.** `//x` with `x` not a member of the library in effect fails. -/
 theorem unbound_fails (fs : List (String × File)) (ec : EvalConfig) (l : Val) (x : String)
@@ -142,6 +118,47 @@ theorem unbound_fails (fs : List (String × File)) (ec : EvalConfig) (l : Val) (
 example : ∃ l, (sandboxScope (world []) ⟨some (.cons "str" .data .nil), .nil⟩).get "//" = some l ∧
     l.get "os" = none := ⟨_, rfl, rfl⟩
 
+/-- **No import reads in a sandbox.** Whatever the source does — nested //eval.*, macros, functions called
+later — sandboxed evaluation never opens a file through import syntax. -/
+theorem sandbox_never_imports (fs : List (String × File)) (ec : EvalConfig) (a : Ast) (ha : a.isSource = true)
+    (fuel : Nat) (c : Ctx) (p : String) : Eff.imported p ∉ (sandboxEval (world fs) fuel c ec a).2 :=
+  sandbox_never_imports_general (world fs) ⟨rfl, rfl, rfl, rfl⟩ safe_within_safeCaps ec a ha fuel c p
+
+/-- **The direct entry.** `syntax.EvalWithScope(ctx, "", src, syntax.SafeStdScope())` outside any sandbox: import
+syntax is allowed and reads files (the one effect this entry permits beyond the library's own), imported code
+runs under the importer's `//` (the safe library).  For every file system of source text, source, fuel and
+context whose dynamic variables are within bounds:
+ (a) the result reaches only capabilities of the safe library — hence nothing that reads files, talks to the
+     network or runs commands;
+ (b) every capability exercised by a call is one of the safe library;
+ (c) the importer opens only files named by import syntax in the source or (transitively) in a file it imports. -/
+theorem direct_confinement (fs : List (String × File)) (hfs : FsSource fs) (a : Ast) (ha : a.isSource = true)
+    (fuel : Nat) (c : Ctx) (hd : c.dyn.reach ⊆ safeLib.reach) :
+    Spec.Confined safeLib.reach (evalWithScope (world fs) fuel c a (.cons "//" safeLib .nil)) ∧
+    (∀ p, Eff.imported p ∈ (evalWithScope (world fs) fuel c a (.cons "//" safeLib .nil)).2 →
+      p ∈ a.imports ++ fsImports fs) :=
+  direct_general (world fs) ⟨rfl, rfl, rfl, rfl⟩ safe_within_safeCaps hfs _
+    (by simp [Val.hasLib, Val.hasKey, Val.get]) safeLib.reach (by simp [Val.reach]) a ha fuel c hd
+
+/-- corollary of (a): no imported file, however written, hands the direct entry a dangerous function -/
+theorem direct_result_not_dangerous (fs : List (String × File)) (hfs : FsSource fs) (a : Ast)
+    (ha : a.isSource = true) (fuel : Nat) :
+    ∀ v, (evalWithScope (world fs) fuel ctx0 a (.cons "//" safeLib .nil)).1 = some v →
+      ∀ d ∈ dangerous, d ∉ v.reach := by
+  intro v hv d hd hin
+  exact safe_is_safe d ((direct_confinement fs hfs a ha fuel ctx0 (by simp [ctx0, Val.reach])).1.1 v hv hin) hd
+
+/-- the hypotheses of `direct_confinement` are satisfiable by non-trivial values: a file that tries to hand
+out //os.file, a source that imports and calls it -/
+example : FsSource [("lib.arrai", .code (.lam "u" (.dot (.pkg "os") "file"))), ("canary.txt", .bytes)] ∧
+    Ast.isSource (.app (.imp "lib.arrai") (.num 0)) = true := by
+  refine ⟨?_, by decide⟩
+  intro p a h
+  simp only [lookupFile] at h
+  split at h
+  · cases h; decide
+  · split at h <;> simp at h
+
 /-- import syntax in sandboxed source fails at compile time and touches nothing -/
 theorem import_rejected_in_sandbox (fs : List (String × File)) (ec : EvalConfig) (p : String)
     (fuel : Nat) (c : Ctx) : sandboxEval (world fs) fuel c ec (.imp p) = (none, []) :=
@@ -152,8 +169,9 @@ theorem import_rejected_in_sandbox (fs : List (String × File)) (ec : EvalConfig
 /-- a small world: the safe library has //eval.value and the grammar, the full one also //os.file -/
 def tinySafe : Val :=
   .cons "eval" (.cons "value" (.nat ["value"] .eval .nil) .nil)
-    (.cons "grammar" (.cons "lang" (.cons "wbnf" .data .nil) .nil) .nil)
-def tinyFull : Val := .cons "os" (.cons "file" (.nat ["file"] .readFile .nil) .nil) tinySafe
+    (.cons "grammar" (.cons "lang" (.cons "wbnf" .data .nil) .nil)
+      (.cons "os" (.cons "cwd" .data .nil) .nil))
+def tinyFull : Val := .cons "os" (.cons "file" (.nat ["file"] .readFile .nil) (.cons "cwd" .data .nil)) tinySafe
 def osFile : Ast := .dot (.pkg "os") "file"
 def tinyWorld (fx : Fixes) : World :=
   ⟨tinySafe, tinyFull, [("lib.arrai", .code osFile), ("secret.txt", .bytes)], fx, []⟩
@@ -164,12 +182,24 @@ def reaches (r : Res) (c : Cap) : Bool :=
   | none => false
 
 def did (r : Res) (c : Cap) : Bool :=
-  r.2.any fun e => match e with | .did c' _ => c' == c | .unmodelled => false
+  r.2.any fun e => match e with | .did c' _ => c' == c | _ => false
 
-/-- the dynamic-variable leak in the small world, and its absence under the specification semantics -/
-theorem dynvar_leaks_in_tree_not_in_spec :
-    reaches (sandboxEval (tinyWorld Fixes.tree) 8 leakCtx ⟨none, .nil⟩ (.var "@{x}")) .readFile = true ∧
-    (sandboxEval (tinyWorld Fixes.all) 8 leakCtx ⟨none, .nil⟩ (.var "@{x}")).1 = none := by decide
+def importedFile (r : Res) (f : String) : Bool :=
+  r.2.any fun e => match e with | .imported f' => f' == f | _ => false
+
+/-- before the barrier: `(\@{x} //eval.eval("@{x}"))(//os.file)` handed the sandboxed source a file-reading
+function that is neither in its scope nor in its library; with the barrier the dynamic variable is unbound -/
+theorem unrepaired_dynvar_leaks :
+    reaches (sandboxEval (tinyWorld Fixes.beforeDynBarrier) 8 leakCtx ⟨none, .nil⟩ (.var "@{x}")) .readFile = true ∧
+    (sandboxEval (tinyWorld Fixes.tree) 8 leakCtx ⟨none, .nil⟩ (.var "@{x}")).1 = none := by decide
+
+/-- … so without the barrier, confinement as stated (for every calling context) is false of the real libraries -/
+theorem unrepaired_dynvar_breaks_confinement :
+    ¬ (∀ (C : List Cap), cfgCaps (world []) ⟨none, .nil⟩ ⊆ C → ∀ (c : Ctx),
+        Spec.Confined C (sandboxEval { world [] with fixes := Fixes.beforeDynBarrier } 8 c ⟨none, .nil⟩ (.var "@{x}"))) := by
+  intro h
+  have h1 := (h safeLib.reach (by simp [cfgCaps, world, Val.reach]) leakCtx).1 (.nat ["file"] .readFile .nil) rfl
+  exact safe_is_safe .readFile (h1 (by simp [Val.reach, capClosure])) (by decide)
 
 /-- `//eval.eval("//eval.value(\"//os.file\")")` -/
 def valueEscape : Ast := .app (.dot (.pkg "eval") "value") (.quote osFile)
@@ -190,10 +220,42 @@ theorem unrepaired_import_escapes :
     reaches (sandboxEval (tinyWorld { Fixes.tree with importReject := false, importLib := false }) 12 ctx0
       ⟨none, .nil⟩ importEscape) .readFile = true := by decide
 
+/-- `//eval.eval("let x = //os; {:(@grammar: …, @transform: (r: \\a (.).file)):x:}")`: the transform mentions `.`,
+which the parser's `bind` hook bound to an ExprClosure over the parse-time scope -/
+def letDotEscape : Ast := .letE "x" (.pkg "os") (.mac (.lam "a" (.dot (.var ".") "file")))
+/-- the same through the name the `let` binds -/
+def letNameEscape : Ast := .letE "x" (.pkg "os") (.mac (.lam "a" (.dot (.var "x") "file")))
+
+/-- **The parse-time scope must start from the library in effect.** On the model variant in which Parse seeds
+its scope stack with the empty scope, an ExprClosure pushed by the `bind` hook closes over a scope without
+`//`, PackageExpr falls back to the full library when the macro looks the name up, and confinement is false:
+the sandboxed source obtains the file-reading function. -/
+theorem confinement_false_if_parse_scope_empty :
+    reaches (sandboxEval (tinyWorld { Fixes.tree with macroLib := false }) 14 ctx0 ⟨none, .nil⟩ letDotEscape)
+      .readFile = true ∧
+    reaches (sandboxEval (tinyWorld { Fixes.tree with macroLib := false }) 14 ctx0 ⟨none, .nil⟩ letNameEscape)
+      .readFile = true ∧
+    ¬ Spec.Confined safeCaps
+      (sandboxEval (tinyWorld { Fixes.tree with macroLib := false }) 14 ctx0 ⟨none, .nil⟩ letDotEscape) := by
+  refine ⟨by decide, by decide, ?_⟩
+  intro h
+  have h1 := h.1 (.nat ["file"] .readFile .nil) rfl
+  have h2 : Cap.readFile ∈ safeCaps := h1 (by simp [Val.reach, capClosure])
+  exact absurd h2 (by decide)
+
+/-- with the parse-time scope seeded from the library in effect, a transform may use names bound by enclosing
+`let`s — and reaches through them exactly what the sandbox's library has: the escape attempts fail, a
+library member that is there is found -/
+theorem let_bound_names_in_macros :
+    (sandboxEval (tinyWorld Fixes.tree) 14 ctx0 ⟨none, .nil⟩ letDotEscape).1 = none ∧
+    (sandboxEval (tinyWorld Fixes.tree) 14 ctx0 ⟨none, .nil⟩ letNameEscape).1 = none ∧
+    reaches (sandboxEval (tinyWorld Fixes.tree) 14 ctx0 ⟨none, .nil⟩
+      (.letE "x" (.dot (.pkg "eval") "value") (.mac (.lam "a" (.var "x"))))) .eval = true := by decide
+
 /-- even with imported code confined, import syntax in a sandbox reads a file it was not given -/
 theorem unrepaired_import_reads :
-    did (sandboxEval (tinyWorld { Fixes.tree with importReject := false }) 12 ctx0 ⟨none, .nil⟩
-      (.imp "secret.txt")) .readFile = true := by decide
+    importedFile (sandboxEval (tinyWorld { Fixes.tree with importReject := false }) 12 ctx0 ⟨none, .nil⟩
+      (.imp "secret.txt")) "secret.txt" = true := by decide
 
 /-- with all repairs the three witnesses fail -/
 theorem repaired_witnesses_fail :
